@@ -55,7 +55,18 @@ func TestC18(t *testing.T) {
 					continue
 				}
 				build(tr, ps3)
-				desc := sprintf("tree[%s] ps3=%v", tr.String(), ps3)
+				odd := ""
+				if idx%3 == 0 && len(tr.Nodes) > 0 {
+					// unusual modification times (outside what a directory record's one-byte year can hold, zero time)
+					years := []int{2200, 1601, 1969, 2156}
+					for ni := range tr.Nodes {
+						y := years[(idx/3+ni)%len(years)]
+						mt := time.Date(y, 5, 6, 7, 8, 9, 0, time.UTC)
+						os.Chtimes(filepath.Join(root, "T", tr.Path(ni)), mt, mt)
+					}
+					odd = " odd-mtimes"
+				}
+				desc := sprintf("tree[%s] ps3=%v%s", tr.String(), ps3, odd)
 				mask := isoVarMask(ps3)
 				rep := map[string]any{"tree": tr.Nodes, "ps3": ps3}
 				synctest.Test(t, func(t *testing.T) {
